@@ -221,7 +221,6 @@ func (s Stat) opts() []uio.DirectoryOption {
 	return o
 }
 
-
 // ---------------------------------------------------------------- the oracle
 
 // dataFeats describes the UnixFS Data field the node really carries (defect class features).
@@ -418,13 +417,13 @@ var (
 )
 
 type seqSys struct {
-	layout string // basic | dyn-big | dyn-small
-	stat   Stat
-	dserv  ipld.DAGService
-	dir    uio.Directory
-	model  map[string]int
+	layout  string // basic | dyn-big | dyn-small
+	stat    Stat
+	dserv   ipld.DAGService
+	dir     uio.Directory
+	model   map[string]int
 	statNow Stat
-	r      *eng.Run
+	r       *eng.Run
 }
 
 const smallThreshold = 420
